@@ -367,7 +367,10 @@ impl AsnDefWriter {
                 Self::write_common_constraint_type(
                     scope,
                     constraint_type_name,
-                    field.tag.unwrap_or(Tag::DEFAULT_SEQUENCE_OF),
+                    field.tag.unwrap_or(match ordering {
+                        EncodingOrdering::Keep => Tag::DEFAULT_SEQUENCE_OF,
+                        EncodingOrdering::Sort => Tag::DEFAULT_SET_OF,
+                    }),
                 );
                 Self::write_size_constraint(
                     match ordering {
@@ -415,7 +418,11 @@ impl AsnDefWriter {
                 Self::write_common_constraint_type(
                     scope,
                     constraint_type_name,
-                    field.tag.unwrap_or(Tag::DEFAULT_SEQUENCE_OF),
+                    // an untagged component with a default value has the tag of its type
+                    field
+                        .tag
+                        .or_else(|| inner.tag())
+                        .unwrap_or(Tag::DEFAULT_SEQUENCE_OF),
                 );
                 Self::write_default_constraint(scope, constraint_type_name, inner, default);
 
@@ -475,7 +482,14 @@ impl AsnDefWriter {
         extension_after_field: Option<usize>,
         ordering: EncodingOrdering,
     ) {
-        Self::write_common_constraint_type(scope, name, tag.unwrap_or(Tag::DEFAULT_SEQUENCE));
+        Self::write_common_constraint_type(
+            scope,
+            name,
+            tag.unwrap_or(match ordering {
+                EncodingOrdering::Keep => Tag::DEFAULT_SEQUENCE,
+                EncodingOrdering::Sort => Tag::DEFAULT_SET,
+            }),
+        );
 
         let sorted;
         let (fields, module) = match ordering {
